@@ -200,7 +200,7 @@ func c05Scenario(r *vx.Rand) {
 func runC05() {
 	n := 2000
 	if run.Thorough() {
-		n = 40000
+		n = 26000
 	}
 	n = scaled(n)
 	for i := 0; i < n; i++ {
